@@ -140,6 +140,12 @@ def record_value(repo, mod, call, field):
 
 def _table(repo, f, it):
     """the constant table an iterable expression denotes, or None"""
+    if isinstance(it, ast.BinOp) and isinstance(it.op, ast.Add):
+        # TABLE_A + TABLE_B: the rows of both, in order
+        l_, r_ = _table(repo, f, it.left), _table(repo, f, it.right)
+        if l_ is not None and r_ is not None and len(l_) + len(r_) <= MAX_ROWS:
+            return list(l_) + list(r_)
+        return None
     v = None
     if isinstance(it, ast.Name):
         v = repo.const_value(f.mod, it.id)
@@ -433,6 +439,9 @@ class _SliceZero(ast.NodeTransformer):
         return n
 
 
+_NUMPY_DRAWS = {"normal": ("loc", "scale"), "gamma": ("shape", "scale"), "uniform": ("low", "high")}
+
+
 class _Synonyms(ast.NodeTransformer):
     """exact synonyms, applied to every function: getattr(x, "name") -> x.name; vars(x) -> x.__dict__;
     np.bitwise_or(a, b) -> a | b (likewise and/xor); np.invert(a) / np.bitwise_not(a) -> ~a; x[slice(a, b)] -> x[a:b];
@@ -474,6 +483,21 @@ class _Synonyms(ast.NodeTransformer):
         if isinstance(n.func, ast.Attribute) and n.func.attr == "_make" and isinstance(n.func.value, ast.Name) and n.func.value.id.lstrip("_")[:1].isupper() \
                 and len(n.args) == 1 and not n.keywords and not isinstance(n.args[0], ast.Starred):
             return ast.copy_location(ast.Call(func=n.func.value, args=[ast.Starred(value=n.args[0], ctx=ast.Load())], keywords=[]), n)
+        # normal(loc=m, scale=s) / gamma(shape=a, scale=b) on numpy's random module or a Generator: the leading parameters by position, the
+        # way the reviewed tree writes every one of these draws
+        if isinstance(n.func, ast.Attribute) and n.func.attr in _NUMPY_DRAWS and n.keywords and not any(isinstance(a, ast.Starred) for a in n.args) \
+                and all(k.arg is not None for k in n.keywords):
+            ps_ = _NUMPY_DRAWS[n.func.attr]
+            kw_ = {k.arg: k.value for k in n.keywords}
+            args_ = list(n.args)
+            while len(args_) < len(ps_) and ps_[len(args_)] in kw_:
+                args_.append(kw_.pop(ps_[len(args_)]))
+            if len(args_) != len(n.args):
+                n.args = args_
+                n.keywords = [k for k in n.keywords if k.arg in kw_]
+        # dict(a=x, b=y) -> {"a": x, "b": y}      (keywords only; `dict` is the builtin: the engine's modules never rebind it)
+        if isinstance(n.func, ast.Name) and n.func.id == "dict" and not n.args and n.keywords and all(k.arg is not None for k in n.keywords):
+            return ast.copy_location(ast.Dict(keys=[ast.Constant(value=k.arg) for k in n.keywords], values=[k.value for k in n.keywords]), n)
         if any(isinstance(a, ast.Starred) and isinstance(a.value, (ast.Tuple, ast.List)) for a in n.args):
             args = []
             for a in n.args:
@@ -898,7 +922,7 @@ def unelse_after_exit(fnode):
     return changed
 
 
-def _resolve_callee(repo, f, c, local):
+def _resolve_callee(repo, f, c, local, by_name_too=False):
     """qualified name of the repository callable a call names directly (module-level function, class -> its __init__ or the class itself for a
     plain record, self.method / cls.method of the enclosing class) and the parameter names its arguments bind to; (None, None) otherwise"""
     def plain_params(g, drop_first):
@@ -930,7 +954,56 @@ def _resolve_callee(repo, f, c, local):
             if m and (repo.funcs[m].is_static or repo.funcs[m].is_classmethod):
                 g = repo.funcs[m]
                 return m, plain_params(g, not g.is_static)
+    if isinstance(fn, ast.Attribute) and isinstance(fn.value, ast.Name) and fn.value.id in local:
+        # local.method(..) where the local is a parameter annotated with a repository class or is only ever bound to a constructor call
+        cq = _local_class(repo, f, fn.value.id)
+        if cq:
+            m = repo.lookup_method(cq, fn.attr)
+            if m and not repo.funcs[m].is_static and not repo.funcs[m].is_classmethod and not repo.funcs[m].is_property:
+                return m, plain_params(repo.funcs[m], True)
+    if isinstance(fn, ast.Attribute) and not (isinstance(fn.value, ast.Name) and (fn.value.id in ("self", "cls") or repo.chase(f.mod, fn.value.id))):
+        # receiver.method(.., name=value) on a receiver of unknown type: by the method's name, when every repository method of that name
+        # has the same plain signature and the call passes keywords that are all parameters of it (a foreign method of the same name that
+        # accepts the same keywords in another order is not a realistic reading).  Used to bring keywords back to positions only.
+        cands = [repo.funcs[q] for q in repo.methods_named(fn.attr)]
+        sigs = {tuple(plain_params(g, True) or ()) if not (g.is_static or g.is_classmethod or g.is_property) else None for g in cands}
+        if cands and len(sigs) == 1 and None not in sigs and next(iter(sigs)):
+            ps = list(next(iter(sigs)))
+            if by_name_too or (c.keywords and all(k.arg in ps for k in c.keywords)):
+                return "byname:" + fn.attr, ps
     return None, None
+
+
+def _local_class(repo, f, name):
+    """the repository class a local certainly is an instance of: a parameter annotated `C` / `Optional[C]` / `C | None`, or a local whose
+    every binding is `name = C(..)`; None otherwise"""
+    def cls_of(e):
+        if isinstance(e, ast.Subscript) and U(e.value).split(".")[-1] == "Optional":
+            return cls_of(e.slice)
+        if isinstance(e, ast.BinOp) and isinstance(e.op, ast.BitOr):
+            l, r = e.left, e.right
+            if isinstance(r, ast.Constant) and r.value is None:
+                return cls_of(l)
+            if isinstance(l, ast.Constant) and l.value is None:
+                return cls_of(r)
+            return None
+        if isinstance(e, ast.Name):
+            q = repo.chase(f.mod, e.id)
+            return q if q in repo.classes else None
+        return None
+    stores = [x for x in ast.walk(f.node) if isinstance(x, ast.Name) and x.id == name and isinstance(x.ctx, (ast.Store, ast.Del))]
+    for p in ast.walk(f.node.args):
+        if isinstance(p, ast.arg) and p.arg == name:
+            return cls_of(p.annotation) if p.annotation is not None and not stores else None
+    found = set()
+    n_assign = 0
+    for st in ast.walk(f.node):
+        if isinstance(st, ast.Assign) and len(st.targets) == 1 and isinstance(st.targets[0], ast.Name) and st.targets[0].id == name:
+            n_assign += 1
+            found.add(cls_of(st.value.func) if isinstance(st.value, ast.Call) else None)
+    if n_assign == len(stores) and len(found) == 1 and None not in found:
+        return next(iter(found))
+    return None
 
 
 def call_conventions(repo):
@@ -942,7 +1015,7 @@ def call_conventions(repo):
         for c in ast.walk(f.node):
             if not isinstance(c, ast.Call) or any(isinstance(a, ast.Starred) for a in c.args) or any(k.arg is None for k in c.keywords):
                 continue
-            q, params = _resolve_callee(repo, f, c, local)
+            q, params = _resolve_callee(repo, f, c, local, by_name_too=True)
             if not q or not params or len(c.args) > len(params):
                 continue
             d = conv.setdefault(q, {})
@@ -977,6 +1050,8 @@ def respell_calls(repo):
             if not q or not params or q not in conv or len(c.args) > len(params):
                 continue
             want = conv[q]
+            if q.startswith("byname:"):
+                want = {p_: w_ for p_, w_ in want.items() if w_ == "pos"}
             bound = dict(zip(params, c.args))
             kws = {k.arg: k.value for k in c.keywords}
             if set(bound) & set(kws) or not set(kws) <= set(params):
